@@ -243,6 +243,8 @@ class FnTr:
         self.fields = {}         # __init__: attribute -> Val
         for n, t in inst.params:
             self.env[n] = Val(lname(n), t, path=n)
+        if fn.args.kwarg is not None:
+            self.env[fn.args.kwarg.arg] = Val('()', 'Kw')          # **kwargs: only what a unit's `method` hook reads from it
         want = [a.arg for a in fn.args.args]
         have = [n for n, _t in inst.params]
         if want[:len(have)] != have and not (fn.args.kwarg or fn.args.vararg or len(want) > len(have)):
@@ -534,6 +536,15 @@ class FnTr:
         if isinstance(tgt, ast.Tuple) and not isinstance(value, ast.Tuple):
             v = self.expr(value)
             n = len(tgt.elts)
+            if v.typ.startswith('Prod ') and n == 2:
+                parts = _prod_parts(v.typ)
+                tmp = self.gensym('t')
+                for i, t in enumerate(tgt.elts):
+                    if not isinstance(t, ast.Name):
+                        raise Unsupported(f'`{self.inst.qual}`: unpacking into `{ast.unparse(t)}`')
+                    self.env[t.id] = Val(f'{tmp}.{i + 1}', parts[i], path=t.id)
+                    self.narrow.pop(t.id, None)
+                return self.wrap(f'let {tmp} := {v.text}\n' + self.block(rest))
             if not (v.typ.startswith('Tuple') and v.typ.split()[0] == f'Tuple{n}'):
                 raise Unsupported(f'`{self.inst.qual}`: tuple assignment from a non-tuple')
             et = v.typ.split(' ', 1)[1]
@@ -644,7 +655,7 @@ class FnTr:
         state = [n for n in self.env if n in assigned]
         if set(state) != assigned:
             raise Unsupported(f'`{self.inst.qual}`: while body assigns names that are not defined before the loop')
-        fixed = [n for n in self.env if n not in state and self.env[n].typ != 'None']
+        fixed = [n for n in self.env if n not in state and self.env[n].typ not in ('None', 'Kw')]
         loop = f'{self.inst.lean}.loop{len(self.aux) + 1}'
         index = len(self.aux) + 1
         self.aux.append(None)
@@ -717,7 +728,7 @@ class FnTr:
         if not targets or (isinstance(s.target, ast.Tuple) and len(targets) != len(s.target.elts)):
             raise Unsupported(f'`{self.inst.qual}`: loop target `{ast.unparse(s.target)}`')
         state = [n for n in self.env if n in assigned and n not in targets]
-        fixed = [n for n in self.env if n not in state and self.env[n].typ != 'None']
+        fixed = [n for n in self.env if n not in state and self.env[n].typ not in ('None', 'Kw')]
         elem = xs.typ[5:]
         loop = f'{self.inst.lean}.loop{len(self.aux) + 1}'
         self.aux.append(None)                 # reserve the number (nested / later loops count on)
@@ -810,6 +821,9 @@ class FnTr:
                 return self.narrow[e.id]
             if e.id in self.env:
                 return self.env[e.id]
+            if e.id in self.u.hooks.get('constants', {}):
+                t, typ = self.u.hooks['constants'][e.id]
+                return Val(t, typ)
             raise Unsupported(f'`{self.inst.qual}`: name `{e.id}`')
         if isinstance(e, ast.Constant):
             if e.value is None:
@@ -818,6 +832,8 @@ class FnTr:
                 return Val('true' if e.value else 'false', 'Bool')
             if isinstance(e.value, int):
                 return Val(f'({e.value} : Int)', 'Int')
+            if isinstance(e.value, float) and e.value == int(e.value) and 'float_as_int' in self.u.hooks:
+                return Val(f'({int(e.value)} : Int)', 'Int')      # 1.0, 2.0 next to the numeric class: the same number
             raise Unsupported(f'constant {e.value!r}')
         if isinstance(e, ast.Attribute):
             return self.attribute(e)
@@ -855,7 +871,7 @@ class FnTr:
             return Val(f'(!{self.truth(self.expr(e.operand))})', 'Bool')
         if isinstance(e, ast.UnaryOp) and isinstance(e.op, ast.USub):
             v = self.expr(e.operand)
-            if v.typ in ('Int', 'Td', 'R'):
+            if v.typ in ('Int', 'Td', 'R', 'N'):
                 return Val(f'(-{v.text})', v.typ)
         if isinstance(e, ast.IfExp):
             st = self.static_test(e.test)
@@ -891,6 +907,18 @@ class FnTr:
             if a.typ != b.typ:
                 raise Unsupported(f'conditional expression of types {a.typ} / {b.typ}')
             return Val(f'(if {self.truth(self.expr(e.test))} then {a.text} else {b.text})', a.typ)
+        if isinstance(e, ast.BinOp) and isinstance(e.op, ast.Pow) and isinstance(e.right, ast.Constant) and e.right.value == 2:
+            a = self.expr(e.left)
+            if a.typ == 'N':
+                return Val(f'(GV.Sphere.sqr {a.text})', 'N')          # `x ** 2` (libm pow(x, 2.0), see Model/Num.lean)
+            raise Unsupported(f'`** 2` on {a.typ}')
+        if isinstance(e, ast.BinOp) and isinstance(e.op, (ast.Div, ast.Mod)):
+            a, b = self.unify_num(self.expr(e.left), self.expr(e.right))
+            if a.typ == b.typ == 'N':
+                if isinstance(e.op, ast.Div):
+                    return Val(f'({a.text} / {b.text})', 'N')
+                return Val(f'(GV.Sphere.pymod {a.text} {b.text})', 'N')      # Python's float `%`
+            raise Unsupported(f'`{ast.unparse(e)[:60]}`: {a.typ} {type(e.op).__name__} {b.typ}')
         if isinstance(e, ast.BinOp) and isinstance(e.op, (ast.Add, ast.Sub, ast.Mult)):
             a, b = self.expr(e.left), self.expr(e.right)
             a, b = self.unify_num(a, b)
@@ -959,6 +987,9 @@ class FnTr:
 
     def attribute(self, e):
         path = _path(e)
+        if path and path in self.u.hooks.get('constants', {}) and not (isinstance(e.value, ast.Name) and e.value.id in self.env):
+            t, typ = self.u.hooks['constants'][path]
+            return Val(t, typ)
         if path and path in self.narrow:
             return self.narrow[path]
         base = self.expr(e.value)
@@ -1074,6 +1105,12 @@ class FnTr:
                     return Val(f'({f.id} {a.text} {b.text})', a.typ)
                 if a.typ == b.typ == 'R':
                     return Val(f'(GV.{f.id}R {a.text} {b.text})', 'R')
+                a, b = self.unify_num(a, b)
+                if a.typ == b.typ == 'N':
+                    # Python returns the first extremal argument: min(a, b) is b only if b < a
+                    if f.id == 'min':
+                        return Val(f'(if Num.lt {_paren(b.text)} {_paren(a.text)} then {b.text} else {a.text})', 'N')
+                    return Val(f'(if Num.lt {_paren(a.text)} {_paren(b.text)} then {b.text} else {a.text})', 'N')
                 raise Unsupported(f'{f.id} of {a.typ}, {b.typ}')
             if f.id == 'zip' and len(e.args) == 2:
                 a, b = self.expr(e.args[0]), self.expr(e.args[1])
